@@ -2,6 +2,7 @@ package chk
 
 import (
 	"fmt"
+	"go/constant"
 	"go/token"
 	"go/types"
 	"strings"
@@ -125,6 +126,10 @@ func (a *NilAnalysis) analyzeFn(fn *ssa.Function) bool {
 				errMayBeNil = false
 			}
 		}
+		okMayBeTrue := true
+		if oi := okResultIndex(fn.Signature); oi >= 0 && oi < len(r.Results) {
+			okMayBeTrue = !knownFalseAt(r.Results[oi], b)
+		}
 		for i, res := range r.Results {
 			if i == ei {
 				continue
@@ -160,6 +165,10 @@ func (a *NilAnalysis) analyzeFn(fn *ssa.Function) bool {
 			}
 			if !nn && errMayBeNil && s.retNonNilNoErr[i] {
 				s.retNonNilNoErr[i] = false
+				changed = true
+			}
+			if !nn && okMayBeTrue && s.retNonNilOk[i] {
+				s.retNonNilOk[i] = false
 				changed = true
 			}
 		}
@@ -726,4 +735,47 @@ func insertPlaceholder(st *ssa.Store) bool {
 		}
 	}
 	return copied && stored
+}
+
+// okResultIndex: the index of the last result when it is a bool and there are others (the comma-ok convention), or -1.
+func okResultIndex(sig *types.Signature) int {
+	r := sig.Results()
+	if r.Len() < 2 {
+		return -1
+	}
+	if bt, ok := r.At(r.Len() - 1).Type().Underlying().(*types.Basic); ok && bt.Kind() == types.Bool {
+		return r.Len() - 1
+	}
+	return -1
+}
+
+// knownFalseAt: the bool value v is false whenever block b runs (the constant false, or a value a dominating branch
+// has tested).
+func knownFalseAt(v ssa.Value, b *ssa.BasicBlock) bool { return knownFalseAtD(v, b, 0) }
+
+func knownFalseAtD(v ssa.Value, b *ssa.BasicBlock, depth int) bool {
+	if depth > 8 {
+		return false
+	}
+	if c, ok := v.(*ssa.Const); ok && c.Value != nil && c.Value.Kind() == constant.Bool {
+		return !constant.BoolVal(c.Value)
+	}
+	for _, dc := range dominatingConds(b) {
+		if dc.cond == v && !dc.taken {
+			return true
+		}
+		if u, ok := dc.cond.(*ssa.UnOp); ok && u.Op == token.NOT && u.X == v && dc.taken {
+			return true
+		}
+	}
+	// a result merged from several returns: every edge is known false where it comes from
+	if ph, ok := v.(*ssa.Phi); ok && ph.Block() == b {
+		for k, e := range ph.Edges {
+			if !knownFalseAtD(e, b.Preds[k], depth+1) {
+				return false
+			}
+		}
+		return len(ph.Edges) > 0
+	}
+	return false
 }
